@@ -511,9 +511,9 @@ func TestVerifC06(t *testing.T) {
 		t.Logf("replay: %+v", out)
 		return
 	}
-	n := 2
+	n, adv := 2, 1
 	if vrt.Thorough() {
-		n = 3
+		n, adv = 8, 3
 	}
 	pool := vrt.NewPool("TestVerifC06", vrt.Workers(), 60*time.Second)
 	deadline := vrt.Deadline()
@@ -529,7 +529,7 @@ func TestVerifC06(t *testing.T) {
 		if variant.Sibling {
 			mode += "+sibling-stream-of-the-same-shard"
 		}
-		sc := vfFwdScenario{Mode: variant.Mode, SourceIgnoresHalfClose: variant.SourceIgnoresHalfClose, Sibling: variant.Sibling, NResp: n, NAck: n, MaxAdv: 1}
+		sc := vfFwdScenario{Mode: variant.Mode, SourceIgnoresHalfClose: variant.SourceIgnoresHalfClose, Sibling: variant.Sibling, NResp: n, NAck: n, MaxAdv: adv}
 		type node struct {
 			path    []string
 			enabled []string
